@@ -72,7 +72,8 @@ the round counter and is wrong on big-endian targets only (not in the configurat
 
 The first ten were written by me while building the rules, twelve by a sub-agent asked for plausible refactorings in the
 areas the term-based rules cover (helper extraction, loop forms, renamed locals, correct `clone_from` / `new_checked`
-overrides, iterator forms), two more target specific anchors (a renamed `sub_bytes`, a `zeroize` wipe of a temporary).
+overrides, iterator forms), three more target specific anchors (a renamed `sub_bytes`, a `zeroize` wipe of a temporary, comment / blank lines
+that shift every line number).
 They found three false alarms, all repaired by making the rule semantic rather than by loosening it: C19 did not know
 the `debug_struct(..).finish_non_exhaustive()` builder, C14 W required the callee set of `salted_expand_key` to be exact
 (a helper extraction tripped it; it is transitive now and P became a term rule), and C03 F reported every feature-gated
